@@ -71,6 +71,15 @@ CHECKS = {
               "specification, compares them with the library's output and requires them to be equal."),
         note="ECMA-262 layout, -0, ordering and string minimality are the spec's; the nearest float64 and its shortest digits for literals with > 15 significant digits come from the strconv projection (trusted).",
         design_ref="5 (C13), 4.4"),
+    "C11": dict(
+        technique="TLA+ Quote/GoDecode/Unquote with TLC-checked round-trip, per-character minimality and no-raw-character laws over all byte strings of a critical alphabet; exhaustive replay through 11 output paths x escape sets; literals replayed on unquoting paths; TLC trace validation of random Unicode",
+        text=("Strings.tla defines the literal of a Go string under the escape options (each ill-formed byte becomes one U+FFFD) and JsonText independently defines the meaning of a literal. "
+              "TLC proves for every byte string up to length 3/4 over 26 critical bytes that the literal is valid and means exactly the decoded string for all four escape sets, that each "
+              "character has its shortest permitted spelling, and that no raw '<' '>' '&' / U+2028/9 remain under EscapeForHTML/JS; every string is replayed through AppendQuote, String tokens "
+              "(value and name), Marshal, map keys, TextMarshaler/TextAppender (value and key), struct field names, \\u-escaped raw literals via WriteValue and via MarshalJSON, with and "
+              "without AllowInvalidUTF8, and unquoted again. All literals over four escape alphabets are replayed on AppendUnquote, decoder tokens and Unmarshal. Random strings are validated by TLC."),
+        note="PreserveRawStrings passthrough is part of C12's Format check (Format.tla!ReformatLit); bounded-exhaustive plus sampled.",
+        design_ref="5 (C11), 4.4"),
     "C20": dict(
         technique="depth limit as the MaxD parameter of the TLA+ automaton/Decoder/Encoder/Format models (TLC theorem with MaxD=3; real constant evaluated by TLC on logged executions); TLC-decided cycle reachability on logged Go heaps; crash-isolated drivers",
         text=("Texts, call programs and Go values nested 9999..10002 deep (arrays, objects, mixes; depth reached by tokens, by one value, or split) are executed on every path - token reads, "
